@@ -160,6 +160,8 @@ func init() {
 				"vector-id": 0x1cb5c415, "bool-true": 0x997275b5, "bool-false": 0xbc799737, "null-id": 0x56730bcc, "unknown-id": 0xdeadbeef,
 				"gzip-id": 0x3072cfa1, "container-id": 0x73f1f8dc, "rpc-result-id": 0xf35c6d01,
 				"int-0": 0, "int-1": 1, "int-2": 2, "int-minus1": 0xffffffff, "int-max": 0x7fffffff, "int-min": 0x80000000, "count-2^24": 0x01000000,
+				// counts whose multiples wrap around 32 bits
+				"count-2^30": 0x40000000, "count-2^30+1": 0x40000001, "count-3*2^30": 0xc0000000, "count-2^29": 0x20000000, "count-2^28": 0x10000000,
 				"strhdr-fe-max": 0xfffffffe, "strhdr-fe-big": 0x00fffffe, "strhdr-253": 0x000000fd, "all-flags": 0xffffffff,
 			}
 			keys := make([]string, 0, len(repl))
@@ -197,7 +199,7 @@ func init() {
 			vnames = append(vnames, k)
 		}
 		sort.Strings(vnames)
-		vrepl := []uint32{0x1cb5c415, 0x997275b5, 0x56730bcc, 0xdeadbeef, 0, 1, 2, 0xffffffff, 0x7fffffff, 0x80000000, structIDs[0], enumIDs[0], 0x3072cfa1, 0x73f1f8dc, 0xf35c6d01}
+		vrepl := []uint32{0x1cb5c415, 0x997275b5, 0x56730bcc, 0xdeadbeef, 0, 1, 2, 0xffffffff, 0x7fffffff, 0x80000000, 0x40000000, 0x40000001, 0xc0000000, 0x20000000, 0x10000000, structIDs[0], enumIDs[0], 0x3072cfa1, 0x73f1f8dc, 0xf35c6d01}
 		for _, name := range vnames {
 			base := vecBases[name]
 			vinfo := map[string]interface{}{"name": name}
@@ -234,10 +236,10 @@ func init() {
 		pong := append(word(0x347773c5), make([]byte, 16)...)
 		info := map[string]interface{}{"name": "msg_container"}
 		run("container-valid", cont(1, item(uint32(len(pong)), pong)), nil, info)
-		for _, cnt := range []uint32{0xffffffff, 0x7fffffff, 0x80000000, 0x01000000, 2, 0} {
+		for _, cnt := range []uint32{0xffffffff, 0x7fffffff, 0x80000000, 0x40000000, 0x10000000, 0x01000000, 2, 0} {
 			run(fmt.Sprintf("container-count-%x", cnt), cont(cnt, item(uint32(len(pong)), pong)), nil, info)
 		}
-		for _, sz := range []uint32{0xffffffff, 0x7fffffff, 0x80000000, 0x01000000, 0, 4, 19} {
+		for _, sz := range []uint32{0xffffffff, 0x7fffffff, 0x80000000, 0x40000000, 0xfffffff0, 0x01000000, 0, 4, 19} {
 			run(fmt.Sprintf("container-size-%x", sz), cont(1, item(sz, pong)), nil, info)
 		}
 		gz := func(inner []byte, corrupt string) []byte {
